@@ -573,6 +573,34 @@ def excluded_rules(ctx, F, rid):
                     for x in io:
                         if x.kind == 'call' and x.key == 'std::path::Path::components':
                             it_ok = all(y.kind == 'param' and y.key == rel_i for y in call_arg_origins(fl, x.bb, 0))
+            if not it_ok:
+                # the components were decoded once into a local collection and the pattern is matched against its elements:
+                # the same obligations on the loop that fills the collection (every Normal component of rel, nothing else)
+                for o in to:
+                    coll = {(x.kind, str(x.key), x.bb) for x in iterated_collection(fl, o.bb) if x.kind == 'call'}
+                    for pb_, pt_ in fl.calls(lambda c: c.endswith('Vec::<T, A>::push') or c.endswith('Vec::<T>::push')):
+                        if not ({(x.kind, str(x.key), x.bb) for x in fl.origins(pt_['args'][0]) if x.kind == 'call'} & coll):
+                            continue
+                        vo = fl.origins(pt_['args'][1])
+                        src_ok = False
+                        for v in vo:
+                            if v.kind == 'call' and v.key == 'std::iter::Iterator::next':
+                                io = call_arg_origins(fl, v.bb, 0)
+                                for x in io:
+                                    if x.kind == 'call' and x.key == 'std::path::Path::components':
+                                        src_ok = all(y.kind == 'param' and y.key == rel_i for y in call_arg_origins(fl, x.bb, 0))
+                        nrm = False
+                        for bi in cfg.reachable():
+                            for st in b.blocks[bi]['stmts']:
+                                rv = st['rv']
+                                if rv['k'] == 'discr' and 'Component' in b.local_ty(rv['p']['l']) and not rv['p']['proj']:
+                                    t_ = b.blocks[bi]['term']
+                                    if t_['k'] == 'switch':
+                                        e_ = {(bi, tgt, v_) for v_, tgt in t_['targets'] if v_ == 4}
+                                        if e_ and cfg.edges_guard(e_, pb_):
+                                            nrm = True
+                        if src_ok and nrm:
+                            it_ok, normal = True, True
             ok = pat_ok and normal and it_ok and cfg.edges_guard(c_false, gb) and _G.edges_guard(e_false, gb)
             ctx.check(ok, rid, 'is_excluded:per-component', 'glob_match(trimmed pat, each Normal component of rel) only if pat has no \'/\' and is non-empty',
                       'per-component matching is not over every Normal component for non-empty slash-free patterns (normal=%s, components(rel)=%s)' % (normal, it_ok), term_loc(b, gb))
